@@ -15,7 +15,7 @@ EXTENDS Naturals, Sequences, FiniteSets, TLC
 Char(s, i) == SubSeq(s, i, i)
 Keep == {"a","b","c","d","e","f","g","h","i","j","k","l","m","n","o","p","q","r","s","t","u","v","w","x","y","z",
          "0","1","2","3","4","5","6","7","8","9","_","-"}
-Lower(c) == CASE c = "A" -> "a" [] c = "B" -> "b" [] c = "M" -> "m" [] c = "N" -> "n" [] c = "P" -> "p" [] c = "W" -> "w" [] OTHER -> c
+Lower(c) == CASE c = "A" -> "a" [] c = "B" -> "b" [] c = "M" -> "m" [] c = "N" -> "n" [] c = "P" -> "p" [] c = "W" -> "w" [] c = "F" -> "f" [] c = "O" -> "o" [] c = "S" -> "s" [] OTHER -> c
 RECURSIVE Filter(_, _)
 Filter(s, i) == IF i > Len(s) THEN "" ELSE LET c == Lower(Char(s, i)) IN (IF c \in Keep THEN c ELSE "") \o Filter(s, i + 1)
 RECURSIVE TrimLead(_)
